@@ -126,6 +126,7 @@ static torrent::Handshake* find_hs(uint16_t port, bool retrying) {
 
 static unsigned g_connected = 0;
 static uint64_t g_tx0 = 0;         // WirePeer::tx_total when the current connection was made
+static std::string g_peer_ip_str;  // dotted address of the current case's scripted peer
 static uint16_t g_hs_port = 0;     // remote port of the library-side socket of the current case
 
 // The library-side socket that talks to the current scripted peer (handshake or connection), or -1.
@@ -138,7 +139,7 @@ static int lib_fd(Session& S) {
         ((const sockaddr_in*)sa)->sin_addr.s_addr == g_peer_ip && h->is_open()) return h->file_descriptor();
   }
   for (Torrent* T : {T1, T2, T4}) {
-    torrent::PeerConnectionBase* pcb = S.find_connection(T, g_hs_port);
+    torrent::PeerConnectionBase* pcb = S.find_connection(T, g_peer_ip_str, g_hs_port);
     if (pcb != nullptr && pcb->is_open()) return pcb->file_descriptor();
   }
   return -1;
@@ -169,7 +170,7 @@ static void wait_close(Session& S, bool retrying) {
     int lfd = -1;
     if (auto* h = find_hs(g_hs_port, retrying)) lfd = h->is_open() ? h->file_descriptor() : -1;
     else for (Torrent* T : {T1, T2, T4})
-      if (auto* pcb = S.find_connection(T, g_hs_port)) { if (pcb->is_open()) lfd = pcb->file_descriptor(); }
+      if (auto* pcb = S.find_connection(T, g_peer_ip_str, g_hs_port)) { if (pcb->is_open()) lfd = pcb->file_descriptor(); }
     if (lfd == -1) return;
     struct tcp_info ti{};
     socklen_t n = sizeof ti;
@@ -201,6 +202,7 @@ static void qpump(Session& S, WirePeer& w) {
     }
     if (!inflight) {
       if (ltv::pump(S, {&w}) == 0) return;
+      if (round == 500 && getenv("C06_DEBUG")) fprintf(stderr, "qpump spinning: lfd=%d fd=%d eof=%d rx=%zu\n", lfd, w.fd, (int)w.eof, w.rx.size());
       continue;
     }
     struct timespec ts{0, 1000000};
@@ -462,8 +464,8 @@ static std::string run_script(Session& S, Conn& c, const Script& sc, uint16_t hs
 }
 
 static bool lib_sees_trail(Session& S, Torrent* T, uint16_t port) {
-  torrent::PeerConnectionBase* pcb = S.find_connection(T, port);
-  if (pcb == nullptr) pcb = S.find_connection(T4, port);
+  torrent::PeerConnectionBase* pcb = S.find_connection(T, g_peer_ip_str, port);
+  if (pcb == nullptr) pcb = S.find_connection(T4, g_peer_ip_str, port);
   if (pcb == nullptr) return false;
   const torrent::Bitfield* bf = pcb->peer_chunks()->bitfield();
   bool have1 = bf->size_bits() > 1 && bf->get(1);
@@ -493,6 +495,7 @@ static std::string run_case(Session& S, const std::string& line) {
   std::string ip = "127." + std::to_string(1 + (g_case_no >> 16) % 200) + "." + std::to_string((g_case_no >> 8) & 255) + "." + std::to_string(1 + (g_case_no & 255) % 250);
   std::string outp;
   inet_pton(AF_INET, ip.c_str(), &g_peer_ip);
+  g_peer_ip_str = ip;
   if (f[0] == "I") {
     Script sc = parse_script(f[4]);
     WirePeer w;
